@@ -124,7 +124,10 @@ CLAIMS = {
             'Coq proof: stack = inherited ++ open scopes invariant over all schedules + vm_compute correspondence'),
 
     'C04': ('Machine-checked proof (Coq) over M1: kill() requested between any two loop callbacks of ANY run (any program, listener scripts, schedule; no bound) '
-            'returns a result and never raises (Life/LifeBook.v: an invariant over all model operations, re-entrant listeners included); by symbolic execution '
+            'returns a result and never raises (Life/LifeBook.v: an invariant over all model operations, re-entrant listeners included); in EVERY run the '
+            'bookkeeping of pending requests is never stale (Life/LifePtr.v): _killing / _pausing, when set, is the armed interrupt action, which exists, is '
+            'still pending and of the right kind, and an action is armed only while a step is in flight - so between steps nothing is pending and the '
+            'configuration in which kill() keeps answering with a dead future is unreachable; by symbolic execution '
             'of the model on every quiet world: between steps the process is KILLED when kill() returns True, the text is recorded, the future raises '
             'KilledError with it and the process is closed; while a step is in flight a pending kill action is armed as the interrupt action and returned; a '
             'killed (terminated) process is never revived (C01). The races named in the property (kill/pause/play inside one step, pause then kill in a wait, '
@@ -135,7 +138,7 @@ CLAIMS = {
     'C05': ('Machine-checked proof (Coq) over M1, for EVERY run (any program, listener scripts, schedule of pause/play/resume/kill/fail/late callbacks/ticks; no '
             'bound): every step function or continuation that starts and every sample taken by code inside a step (also after an await) sees the process not '
             'paused; pause() and play() never raise; between loop callbacks a process whose step is in flight is not paused (a pause takes effect at a step '
-            'boundary). By symbolic execution on every quiet world: pause() between steps pauses at once with the message as status and the previous status '
+            'boundary); a pending pause is always the armed, still pending pause action of a step in flight (Life/LifePtr.v). By symbolic execution on every quiet world: pause() between steps pauses at once with the message as status and the previous status '
             'remembered; play() un-pauses and restores exactly that status. The uninterrupted reference run of command programs is the reference interpreter '
             '(C13). Tied to the code by ~2.5k real runs per quick run: every selection of <= 3 pause/play/resume requests per loop iteration at every boundary, '
             'compared step by step with the uninterrupted run.',
@@ -150,14 +153,18 @@ CLAIMS = {
             'DESIGN.md section 4 C06', COMMON_NOTE + 'PARTIAL: "never WAITING for ever under every interleaving" is checked for <= 3 events per schedule on implementation + model, not proved for all schedules; the awaited-futures half is C10 (no pause there) plus the implementation oracle.',
             'Coq proof: equations + symbolic execution of the wake-up path on quiet worlds + vm_compute correspondence'),
 
-    'C02': ('Machine-checked proof (Coq) over M1 by symbolic execution of the model on EVERY quiet world (any program, arguments, results, messages): the iteration of '
-            'the stepping loop that terminates the process — successful or unsuccessful result, exception, Kill command — and a kill request between steps leave the '
-            'state, the future (outputs / the exception / KilledError with the kill text), the closed flag, the cleanups (run exactly once) and the listener '
-            'notifications (exactly one, of the matching kind) in agreement; the stepping loop returns on a terminated process; the outcome never changes '
-            'afterwards in any run (C01). Tied to the code by ~2.9k real runs per quick run in which all eight accessors, the listener and cleanup counters and '
-            'the stepping task are sampled after every event and callback (kill while paused, inside a step, from a listener, fail, raising late callbacks).',
-            'DESIGN.md section 4 C02', COMMON_NOTE + 'PARTIAL: the agreement is proved per terminating operation from quiet worlds, not as an invariant over all schedules; "the future is never resolved while live" is checked at every sample point by the oracle and the correspondence only.',
-            'Coq proof: symbolic execution (wp calculus + computation) of every terminating operation + C01 finality + vm_compute correspondence'),
+    'C02': ('Machine-checked proof (Coq) over M1. For EVERY run (any program, listener scripts with re-entrant control calls - kill from a listener, pause inside a '
+            'transition -, callbacks, any schedule of control requests / cancellations / late callbacks / completions of awaited futures, of any length; hooks that '
+            'do not raise) and at every point between two environment events (Life/LifeAgree.v, an invariant proved compositionally over all model operations): '
+            'FINISHED <-> the future holds the outputs, EXCEPTED e <-> the future raises e, KILLED m <-> the future raises KilledError with the text of m, each with '
+            'the process closed, its hooks released, exactly one terminal notification of that kind sent to the listeners and the registered cleanup run exactly '
+            'once after it; live <-> the future is pending (or was cancelled by its owner), not closed, no terminal notification, no cleanup. By symbolic '
+            'execution on every quiet world additionally: each terminating operation (result, unsuccessful result, exception, Kill command, kill between steps) '
+            'produces exactly the documented outcome and the stepping loop returns on a terminated process; the outcome never changes afterwards (C01). Tied to '
+            'the code by ~2.9k real runs per quick run in which all eight accessors, the listener and cleanup counters and the stepping task are sampled after '
+            'every event and callback (kill while paused, inside a step, from a listener, fail, raising late callbacks).',
+            'DESIGN.md section 4 C02', COMMON_NOTE + 'PARTIAL: "step_until_terminated() returns" is proved per operation (the loop head returns on a terminated process) and checked at the end of every schedule that completes the futures the program awaits; it is not part of the all-run invariant.',
+            'Coq proof: invariant over all runs (compositional Hoare triples in wp form) + symbolic execution of every terminating operation + C01 finality + vm_compute correspondence'),
     'C03': ('Machine-checked proof (Coq) over M1 with one injected fault, by symbolic execution on EVERY world in which the fault is armed (whatever the occurrence '
             'count): for the step function and for each life-cycle hook of the transitions RUNNING->RUNNING, ->WAITING, ->FINISHED (incl. on_finished, on_terminated, '
             'on_close) and of a kill between steps, the enclosing operation returns normally, the process is EXCEPTED with exactly that exception, its future raises '
